@@ -60,10 +60,31 @@ def _resolves_to_any(s):
     return s["t"] == "any"
 
 
+def _make_strict(s):
+    s = dict(s)
+    if s["t"] == "custom":
+        s.pop("sub", None)
+        s["strict"] = True
+    for k in ("elem", "spec"):
+        if k in s and isinstance(s[k], dict) and "t" in s[k]:
+            s[k] = _make_strict(s[k])
+    if "elems" in s:
+        s["elems"] = [_make_strict(e) for e in s["elems"]]
+    if "alts" in s:
+        s["alts"] = [_make_strict(e) for e in s["alts"]]
+    if "entries" in s:
+        s["entries"] = [dict(e, spec=_make_strict(e["spec"])) for e in s["entries"]]
+    return s
+
+
 @st.composite
 def _case(draw):
     base = draw(specs.spec_strategy(depth=draw(st.sampled_from([1, 1, 2, 2, 3])), sat=True))
     spec = _wrap(draw, base)
+    if draw(st.integers(0, 3)) == 0:
+        # custom types whose hooks have exact signatures (keyword-only, no **kwargs): no extra keywords are
+        # passed to the visitors in such a case
+        spec = _make_strict(spec)
     vals = []
     try:
         vals.append(draw(values.conforming(base)))
@@ -74,7 +95,8 @@ def _case(draw):
     except values.Unsat:
         pass
     vals.append(draw(values.junk))
-    return {"spec": spec, "values": vals, "rng": draw(rng.script_strategy(30))}
+    return {"spec": spec, "values": vals, "rng": draw(rng.script_strategy(30)),
+            "strict": any(s_.get("strict") for s_, _ in specs.walk(spec) if s_["t"] == "custom")}
 
 
 def strategy(tier):
@@ -116,6 +138,9 @@ def check(case, ctx):
         ctx.skip_undeclarable(None, e)
         return
     wrapped = [(s.get("pos"), s.get("depth", 0)) for s, _ in specs.walk(spec) if s["t"] == "custom"]
+    MK = {} if case.get("strict") else {"marker": 7}      # extra keyword passed through the visitors
+    if case.get("strict"):
+        ctx.label("strict-signature-hooks")
     if "done" not in _REGISTERED:
         # the base custom type is in use before any type derived from it (the realistic order)
         warm = Fwd()(d42.schema.int)
@@ -128,7 +153,7 @@ def check(case, ctx):
     # printed form
     Fwd.log = []
     try:
-        r2 = represent(T2, marker=7)
+        r2 = represent(T2, **MK)
     except Exception as e:  # noqa
         raise Violation("represent-raises", f"represent of the wrapped tree raised {e!r}")
     finally:
@@ -136,9 +161,9 @@ def check(case, ctx):
     r1 = repr(T)
     if r1 != r2 or repr(T2) != r1:
         raise Violation("repr-differs", f"built-in: {r1!r}\nwrapped : {r2!r}")
-    if any(kw.get("marker") != 7 for h, kw in log):
+    if MK and any(kw.get("marker") != 7 for h, kw in log):
         raise Violation("kwargs-lost:represent", f"a represent hook did not receive the marker keyword: {log!r}")
-    if len([1 for h, _ in log if h == "represent"]) != len(wrapped):
+    if MK and len([1 for h, _ in log if h == "represent"]) != len(wrapped):
         raise Violation("represent-visits", f"{len(wrapped)} wrapped nodes, {len(log)} represent hook calls")
 
     # validation
@@ -147,7 +172,7 @@ def check(case, ctx):
         v = values.realize(rec)
         Fwd.log = []
         try:
-            e2 = validate(T2, v, marker=7).get_errors()
+            e2 = validate(T2, v, **MK).get_errors()
             e1 = validate(T, v).get_errors()
         except Exception as e:  # noqa
             Fwd.log = None
@@ -161,14 +186,14 @@ def check(case, ctx):
         if collections.Counter(map(_sig, e1)) != collections.Counter(map(_sig, e2)):
             raise Violation("errors-differ", f"value {v!r}\nbuilt-in: {e1!r}\nwrapped : {e2!r}")
         for h, kw in log:
-            if kw.get("marker") != 7:
+            if MK and kw.get("marker") != 7:
                 raise Violation("kwargs-lost:validate", f"a validate hook did not receive the marker keyword: {kw!r}")
             if type(kw.get("path")).__name__ != "PathHolder":
                 raise Violation("path-not-passed", f"validate hook got path={kw.get('path')!r}")
         verdicts.add(not e1)
         # substitution
         outcome = []
-        for tree, kw in ((T, {}), (T2, {"marker": 7})):
+        for tree, kw in ((T, {}), (T2, dict(MK))):
             Fwd.log = []
             try:
                 outcome.append(("ok", repr(substitute(tree, v, **kw))))
@@ -183,6 +208,27 @@ def check(case, ctx):
             raise Violation("substitution-differs", f"value {v!r}\nbuilt-in: {outcome[0]!r}\nwrapped : {outcome[1]!r}")
         ctx.label("subst:" + outcome[0][0])
 
+    # a validator of one's own with its own path-holder class: errors of both trees carry that class
+    from d42.validation import Validator
+    from th import PathHolder
+
+    class SlashPath(PathHolder):
+        pass
+    own = Validator(path_holder_factory=SlashPath)
+    for rec in case["values"][:3]:
+        v = values.realize(rec)
+        try:
+            o1 = T.__accept__(own, value=v).get_errors()
+            o2 = T2.__accept__(own, value=v).get_errors()
+        except Exception:  # noqa
+            continue
+        k1 = collections.Counter((_sig(e), type(e.path).__name__) for e in o1)
+        k2 = collections.Counter((_sig(e), type(e.path).__name__) for e in o2)
+        if k1 != k2:
+            raise Violation("own-validator-errors-differ", f"Validator(path_holder_factory=...) on {v!r}\n"
+                                                           f"built-in: {[(e, type(e.path).__name__) for e in o1]!r}\n"
+                                                           f"wrapped : {[(e, type(e.path).__name__) for e in o2]!r}")
+
     # generation under one RNG script
     volatile = any(s["t"] in ("uuid4", "datetime", "date") and "value" not in s for s, _ in specs.walk(spec))
     try:
@@ -195,12 +241,12 @@ def check(case, ctx):
         Fwd.log = []
         try:
             with rng.scripted(case["rng"]):
-                g2 = fake(T2, marker=7)
+                g2 = fake(T2, **MK)
         except Exception as e:  # noqa
             raise Violation("fake-raises-only-wrapped", f"fake(wrapped {r1}) raised {e!r}")
         finally:
             log, Fwd.log = Fwd.log, None
-        if any(kw.get("marker") != 7 for h, kw in log):
+        if MK and any(kw.get("marker") != 7 for h, kw in log):
             raise Violation("kwargs-lost:generate", f"a generate hook did not receive the marker: {log!r}")
         if not volatile and not (g1 == g2 or (g1 != g1 and g2 != g2)):
             raise Violation("generation-differs", f"one RNG script: built-in {g1!r}, wrapped {g2!r}")
